@@ -54,7 +54,7 @@ func c13Scenario(c *Ctx, idx int, r *Rng) (mline, mimpl, mcase string) {
 	}
 	var steps []string
 	log := func(f string, a ...interface{}) { steps = append(steps, fmt.Sprintf(f, a...)) }
-	exclude := Pick(r, []string{"", "", "", "dir", "*.dat"})
+	exclude := Pick(r, []string{"", "", "", "dir", "*.dat", "/dir", "/dir"})
 	if exclude != "" {
 		w.git("config", "lfs.fetchexclude", exclude)
 	}
@@ -65,7 +65,8 @@ func c13Scenario(c *Ctx, idx int, r *Rng) (mline, mimpl, mcase string) {
 	}
 	w.git("add", "-A")
 	w.git("commit", "-qm", "attrs")
-	names := []string{"a.bin", "b.bin", "dir/c.bin", "d.dat", "dir/e.dat", "f.bin"}
+	// deep/dir/g.bin: a directory with the excluded directory's name further down — excluded by `dir`, not by `/dir`
+	names := []string{"a.bin", "b.bin", "dir/c.bin", "d.dat", "dir/e.dat", "f.bin", "deep/dir/g.bin"}
 	if nested {
 		names = append(names, "sub/deep/x.raw")
 	}
